@@ -37,6 +37,19 @@ PROPS = {
                    "historical scans drop empty-valued keys (known finding F3b)",
         "assumptions": ["goleveldb snapshot isolation and memdb thread-safety", "sequential executions only"],
     },
+    "C02": {
+        "module": "ZenonVerif.Props.C02",
+        "streams": [S("sync", 12, 200, timeout=7200)],
+        "rule": "sync stream: one evaluation = one line: a momentum's redo patch replayed into the Lean manager model, or the "
+                "frontier digest of one follower under one delivery schedule (one-by-one / random batches up to 40 / account "
+                "blocks gossiped 0..3 momentums ahead / restarts on the same directory / batches up to 120 with overlaps); per "
+                "history one producing node (transfers, receives, token issue/mint/burn, fuse, stake, delegate, refunds, blocks "
+                "acknowledging momentums up to 40 below the frontier) and five followers; monitors: every momentum accepted by "
+                "every follower, byte-identical frontier key space on all followers and the producer, identical query answers",
+        "partial": "that the Go VM is a function of exactly the inputs the model names is established by the multi-node "
+                   "correspondence and the nondeterminism-site fact, not by a theorem; map-iteration order inside methods is only sampled",
+        "assumptions": ["SHA3 collision freedom (ChangesHash pins the patch)"],
+    },
     "C08": {
         "module": "ZenonVerif.Props.C08",
         "streams": [S("crash", 25, 1500, timeout=7200)],
@@ -55,6 +68,7 @@ PROPS = {
         "streams": [S("vdb", 400, 20000, arg="mix=pop")],
         "rule": VDB_RULE + "; pop-heavy mix: views are opened before a branch switch and re-read after it",
         "partial": "pool-after-switch and consensus statistics after a switch are covered by the two-node sync stream (C02), not by theorems yet",
+    },
     "C05": {
         "module": "ZenonVerif.Props.C05",
         "streams": [S("election", 2000, 40000), S("ticker", 4000, 400000), S("mverify", 40, 300)],
